@@ -72,6 +72,7 @@ def reference(src, xs):
     it = tflinterp.Interp(src, 0)
     v = it.run(dict(zip(sg["inputs"], xs)))
     outs.append((0, [v[i] for i in sg["outputs"]]))
+    reference.loose = it.loose
     if it.ambiguous:
         v = tflinterp.Interp(src, 1).run(dict(zip(sg["inputs"], xs)))
         outs.append((1, [v[i] for i in sg["outputs"]]))
@@ -148,7 +149,7 @@ def oracle(case, rec=None):
                 raise Violation("C01/undecodable", str(e), case, tags)
             finally:
                 npusim.OPERAND_SCALING = 2
-            worst, where = compare(got, want, tol)
+            worst, where = compare(got, want, max(tol, getattr(reference, "loose", 0)))
             verdicts.append((worst, where, mode))
             if where is None:
                 if opscale != 2 and rec is not None:
@@ -177,6 +178,8 @@ def strategy(profile, quick):
 
     if profile == "cascade":
         base = e2e.case_strategy("cascade", max_ops=5, big=True, small_arena=True, dtypes=("int8", "int8", "uint8"))
+    elif profile == "approx":
+        base = e2e.case_strategy("approx", max_ops=4, big=False, dtypes=("int8", "int8", "uint8"))
     elif profile == "elementwise":
         base = e2e.case_strategy("elementwise", max_ops=3, big=False, dtypes=("int8", "int8", "uint8"))
     elif profile == "slices":
@@ -197,6 +200,7 @@ def parts(ctx):
     ps += [Part("cascade%02d" % i, part, ("cascade", i, 8 if q else 250)) for i in range(6)]
     ps += [Part("slices%02d" % i, part, ("slices", i, 16 if q else 500)) for i in range(6)]
     ps += [Part("elementwise%02d" % i, part, ("elementwise", i, 20 if q else 600)) for i in range(4)]
+    ps += [Part("approx%02d" % i, part, ("approx", i, 20 if q else 600)) for i in range(4)]
     return ps
 
 
